@@ -63,6 +63,9 @@ CHECKS = {
   'C07': dict(category='other', technique='lock-step symbolic execution of the traced shard_map programs over all devices of real CPU meshes (collectives implemented across per-device environments) + QF_LRA / monomial-abstraction equivalence queries against the unsharded program',
               text='For ALL inputs: sharded transforms, longitude derivative, spectral operators, filters, sharded_einsum (gather/scatter strategies, both argument orders), parallel cumulative sums, vertical padding, primitive-equation implicit/explicit operators equal the single-device results after cropping, on meshes with axis sizes 1,2,4,6 (<= 8 devices) and padded layouts; no non-finite constant reaches the IR.',
               design='§3 C07'),
+  'C08': dict(category='other', technique='symbolic execution of the jaxprs of jax.jvp / jax.vjp of the real functions (polynomial normal forms) + exact symbolic differentiation of the primal normal form + QF_LRA monomial-abstraction queries',
+              text='For ALL admissible states, tangents and cotangents: forward mode equals the exact derivative of the primal, reverse mode is the adjoint of forward mode, and no non-finite constant or undefined operation is reachable in the derivative programs: transforms and spectral operators, filters, dry primitive-equation explicit/implicit terms and a filtered Euler step, shallow-water steps, on plain and padded layouts.',
+              design='§3 C08'),
   'C13': dict(category='other', technique='symbolic execution of the traced jaxpr + QF_LRA queries (monomial abstraction for bilinear clauses)',
               text='Bounded symbolic verification of the sigma calculus identities for ALL column data and vertical velocities on each enumerated level set (even, dyadic uneven, seeded random), axis and shape.',
               design='§3 C13'),
